@@ -405,7 +405,34 @@ def data_generator(data, fun=_data_split, args=(), kwargs=None, MAX_ITER=1000):
     """Data generator: call ``fun`` to each ``data`` as a generator. The extra arguments will be passed to ``fun``."""
     kwargs = kwargs if kwargs is not None else {}
 
-    def _gen(dat):
+    def _has_leaf(dat):
+        if isinstance(dat, dict):
+            return any(_has_leaf(v) for v in dat.values())
+        if isinstance(dat, (list, tuple)):
+            return any(_has_leaf(v) for v in dat)
+        return True
+
+    def _copy_struct(dat):
+        if isinstance(dat, dict):
+            return type(dat)((k, _copy_struct(v)) for k, v in dat.items())
+        if isinstance(dat, list):
+            return [_copy_struct(v) for v in dat]
+        return tuple(_copy_struct(v) for v in dat)
+
+    def _repeat(dat):
+        # a container without data has no size: repeat it as long as the
+        # sibling data last (zip stops at the shortest)
+        while True:
+            yield _copy_struct(dat)
+
+    def _gen(dat, top=False):
+        if (
+            not top
+            and isinstance(dat, (dict, list, tuple))
+            and not _has_leaf(dat)
+        ):
+            yield from _repeat(dat)
+            return
         if isinstance(dat, dict):
             if not dat:
                 for i in range(MAX_ITER):
@@ -435,7 +462,7 @@ def data_generator(data, fun=_data_split, args=(), kwargs=None, MAX_ITER=1000):
             for i in fun(dat, *args, **kwargs):
                 yield i
 
-    return _gen(data)
+    return _gen(data, top=True)
 
 
 def data_split(data, batch_size, axis=0):
